@@ -71,9 +71,14 @@ theorem same_order_no_deadlock :
     ((Cfg.init () [(), ()] [twoLockProg (σ := Unit) (τ := Unit) 0 1 [], twoLockProg 0 1 []]).allRuns).all
       (fun r => r.2.done) = true := by decide +kernel
 
-/-! ## 4. counterexamples (each replayed on the real code by harness/props/c08.py) -/
+/-! ## 4. counterexamples
 
-/-- `MemoryFS.removedir` as it was coded (isempty and removetree = two locked blocks) -/
+The first three are the races of the library as it WAS (lock-free variants of the model): they
+show that the lock the table theorems of `C08.lean` insist on is necessary, and were reproduced on
+the real code before the fixes 0e32556 / 652becf / feefeca.  The harness keeps exploring the same
+call sets on the current code, where they must stay linearizable (`…_repaired` in `C08.lean`). -/
+
+/-- `MemoryFS.removedir` as it was coded before 0e32556 (isempty and removetree = two locked blocks) -/
 def splitRemovedir : Impl :=
   { removedirAtomic := false, moveAtomic := true, writebytesAtomic := true, readbytesAtomic := true }
 
@@ -83,7 +88,7 @@ def raceCalls : List Op := [.removedir "d".toList, .writebytes "d/x".toList [1]]
 /-- the schedule: removedir's `isempty` block, the whole writebytes, removedir's `removetree` block.
 Both calls succeed and the file just written is gone; sequentially either writebytes fails
 (ResourceNotFound) or removedir fails (DirectoryNotEmpty). -/
-theorem memfs_removedir_race_counterexample :
+theorem memfs_removedir_race_without_lock_counterexample :
     scheduleShows splitRemovedir raceTree raceCalls [0, 0, 0, 1, 1, 1, 0, 0, 0]
       ([some (.ok .unit), some (.ok .unit)], []) false = true := by decide +kernel
 
@@ -129,7 +134,7 @@ example : segments splitRemovedir (.removedir "d".toList) =
 theorem memfs_removedir_split_not_linearizable :
     ¬ Linearizable splitRemovedir raceCalls raceTree := by
   intro h
-  obtain ⟨c, hexec, hdone, _, hlin⟩ := scheduleShows_spec memfs_removedir_race_counterexample
+  obtain ⟨c, hexec, hdone, _, hlin⟩ := scheduleShows_spec memfs_removedir_race_without_lock_counterexample
   obtain ⟨order, hperm, hobs⟩ := h _ c hexec hdone
   have hmem : order ∈ perms (List.range raceCalls.length) := by
     have : order = [0, 1] ∨ order = [1, 0] := by
@@ -150,7 +155,7 @@ theorem memfs_removedir_split_not_linearizable :
   rw [hlin] at this
   cases this
 
-/-- `FS.move` (base class; OSFS, MountFS, MultiFS): `exists(dst)` is checked outside the lock -/
+/-- `FS.move` as it was coded before 652becf: `exists(dst)` checked outside the lock -/
 def baseMove : Impl :=
   { removedirAtomic := true, moveAtomic := false, writebytesAtomic := true, readbytesAtomic := true }
 
@@ -160,11 +165,11 @@ def moveCalls : List Op := [.move "a".toList "b".toList false, .writebytes "b".t
 /-- `move(a, b, overwrite=False)` sees "b does not exist"; `writebytes(b)` creates it; the locked
 copy+remove then overwrites b.  Both succeed and the written data is lost; sequentially either
 the move fails with DestinationExists or b ends with the written bytes. -/
-theorem fs_move_check_then_act_counterexample :
+theorem fs_move_check_then_act_without_lock_counterexample :
     scheduleShows baseMove moveTree moveCalls [0, 0, 0, 1, 1, 1, 0, 0, 0, 0, 0, 0]
       ([some (.ok .unit), some (.ok .unit)], [(["b".toList], some [7])]) false = true := by decide +kernel
 
-/-- `FS.writebytes` on MemoryFS = open (create+truncate, locked) then write (entry lock only) -/
+/-- `FS.writebytes` as it was coded before feefeca = open (create+truncate, locked) then write (entry lock only) -/
 def torn : Impl :=
   { removedirAtomic := true, moveAtomic := true, writebytesAtomic := false, readbytesAtomic := false }
 
@@ -172,9 +177,8 @@ def tornTree : State := { root := .dir [], closed := false }
 def tornCalls : List Op := [.writebytes "f".toList [1], .writebytes "f".toList [2, 3]]
 
 /-- both writers open (truncate) first, then `[2,3]` is written, then `[1]` lands at offset 0:
-the file holds `[1,3]`, which neither order of the two calls produces.  This is why the FULL
-statement is false and `memoryfs_linearizable_partial` excludes `writebytes`. -/
-theorem memfs_writebytes_race_counterexample :
+the file holds `[1,3]`, which neither order of the two calls produces. -/
+theorem memfs_writebytes_race_without_lock_counterexample :
     scheduleShows torn tornTree tornCalls [0, 0, 0, 1, 1, 1, 1, 0]
       ([some (.ok .unit), some (.ok .unit)], [(["f".toList], some [1, 3])]) false = true := by decide +kernel
 
